@@ -12,6 +12,7 @@ package main
 // JSON it was decoded from (through the exported accessors).
 
 import (
+	"bytes"
 	"encoding/json"
 	"fmt"
 	"reflect"
@@ -254,7 +255,9 @@ func c12Schemas(r *Run, n int) {
 		kind := []string{"basetype", "columntype", "columnschema", "schema"}[i%4]
 		text := validSchemaWire(r, kind)
 		var src interface{}
-		_ = json.Unmarshal(text, &src)
+		sdec := json.NewDecoder(bytes.NewReader(text))
+		sdec.UseNumber() // integer bounds are compared digit by digit
+		_ = sdec.Decode(&src)
 		cs := map[string]interface{}{"type": kind, "text": string(text)}
 		key := ""
 		if len(text) > 12 {
@@ -298,6 +301,10 @@ func c12Schemas(r *Run, n int) {
 }
 
 func jsonNum(x interface{}) (float64, bool) {
+	if n, ok := x.(json.Number); ok {
+		f, err := n.Float64()
+		return f, err == nil
+	}
 	f, ok := x.(float64)
 	return f, ok
 }
@@ -325,6 +332,9 @@ func baseFacts(src interface{}, b *ovsdb.BaseType) string {
 		g, err := get()
 		if err != nil || float64(g) != w {
 			return fmt.Sprintf("%s: decoded %v (err %v), JSON says %v", name, g, err, w)
+		}
+		if n, isNum := m[name].(json.Number); isNum && !strings.ContainsAny(string(n), ".eE") && fmt.Sprint(g) != string(n) {
+			return fmt.Sprintf("%s: decoded %d, JSON says %s", name, g, n)
 		}
 		return ""
 	}
@@ -713,6 +723,10 @@ func recodeCorrespond(r *Run, stream, kind string, text []byte) {
 	}
 	r.Case(stream+":"+kind, "")
 	if mo.Class != out {
+		if out == "err" && mo.Class == "ok" && hasIntBeyond64(text) {
+			r.Count(stream + ":integer-beyond-64-bits") // see c19Correspond
+			return
+		}
 		r.Violation(stream, cs, out, mo.Class, false, "outcome class of decoding a "+kind+" differs between implementation and model", "")
 		return
 	}
